@@ -61,7 +61,7 @@ var c12Mutators = map[string]bool{
 var c12ReadOnly = map[string]bool{
 	"cmp.Compare": true, "cmp.Less": true,
 	"github.com/karino2/folang/pkg/frt.NewTuple2": true, "github.com/karino2/folang/pkg/frt.NewTuple3": true,
-	"slices.Contains": true, "slices.Index": true, "slices.Equal": true, "slices.IndexFunc": true,
+	"slices.Contains": true, "slices.Index": true, "slices.Equal": true, "slices.IndexFunc": true, "slices.ContainsFunc": true,
 }
 
 type c12fn struct {
@@ -71,6 +71,7 @@ type c12fn struct {
 	name  string
 	class map[ssa.Value]sclass
 	selfP string
+	fresh map[*ssa.Function]int // same-package callees: 1 computing, 2 returns a fresh slice, 3 does not
 }
 
 func (a *c12fn) cls(v ssa.Value) sclass {
@@ -173,6 +174,15 @@ func (a *c12fn) compute(v ssa.Value) sclass {
 			}
 			return clBorrowed
 		}
+		if callee := x.Call.StaticCallee(); callee != nil && !x.Call.IsInvoke() && isSliceT(x.Type()) {
+			name := ssaCalleeName(callee)
+			if name == "slices.Clone" {
+				return clFresh // documented: a shallow copy in a new backing array
+			}
+			if strings.HasPrefix(name, a.selfP+".") && callee.Parent() == nil && a.returnsFresh(callee) {
+				return clFresh
+			}
+		}
 		return clBorrowed
 	case *ssa.Phi:
 		c := clFresh
@@ -188,6 +198,61 @@ func (a *c12fn) compute(v ssa.Value) sclass {
 		return a.cls(x.X)
 	}
 	return clBorrowed
+}
+
+// returnsFresh: a function of the same package hands its caller a slice nobody else holds — every return value is
+// FRESH in the callee's own analysis (its parameters BORROWED), and the callee can keep no second reference: it
+// stores no slice anywhere but in its own locals, builds no closure and calls nothing but builtins (the package
+// has no package-level variables, C12.package).  clone(s) = append(s[:0:0], s...) is the instance.
+func (a *c12fn) returnsFresh(callee *ssa.Function) bool {
+	if o := callee.Origin(); o != nil {
+		callee = o
+	}
+	if a.fresh == nil {
+		a.fresh = map[*ssa.Function]int{}
+	}
+	switch a.fresh[callee] {
+	case 1, 3:
+		return false // being computed (recursion) or known not to
+	case 2:
+		return true
+	}
+	a.fresh[callee] = 1
+	ok := callee.Blocks != nil && len(callee.Blocks) > 0
+	sub := &c12fn{c: a.c, fset: a.fset, fn: callee, name: callee.Name(), class: map[ssa.Value]sclass{}, selfP: a.selfP, fresh: a.fresh}
+	if ok {
+		sub.solve()
+	}
+	rets := 0
+	for _, b := range callee.Blocks {
+		for _, in := range b.Instrs {
+			switch x := in.(type) {
+			case *ssa.Return:
+				if len(x.Results) != 1 || !isSliceT(x.Results[0].Type()) || sub.cls(x.Results[0]) != clFresh {
+					ok = false
+				}
+				rets++
+			case *ssa.Store:
+				if _, local := x.Addr.(*ssa.Alloc); !local || isSliceT(x.Val.Type()) {
+					ok = false
+				}
+			case *ssa.MakeClosure, *ssa.Go, *ssa.Defer, *ssa.Send, *ssa.MapUpdate:
+				ok = false
+			case *ssa.Call:
+				if _, builtin := x.Call.Value.(*ssa.Builtin); !builtin {
+					ok = false
+				}
+			}
+		}
+	}
+	if rets == 0 {
+		ok = false
+	}
+	a.fresh[callee] = 3
+	if ok {
+		a.fresh[callee] = 2
+	}
+	return ok
 }
 
 func (a *c12fn) solve() {
@@ -474,11 +539,12 @@ func checkC12(c *Ctx) {
 	}
 	sort.Slice(fns, func(i, j int) bool { return fns[i].String() < fns[j].String() })
 	exported := 0
+	fresh := map[*ssa.Function]int{}
 	for _, fn := range fns {
 		if fn.Parent() == nil && token.IsExported(fn.Name()) {
 			exported++
 		}
-		a := &c12fn{c: c, fset: m.Fset, fn: fn, name: fn.Name(), class: map[ssa.Value]sclass{}, selfP: pkg.PkgPath}
+		a := &c12fn{c: c, fset: m.Fset, fn: fn, name: fn.Name(), class: map[ssa.Value]sclass{}, selfP: pkg.PkgPath, fresh: fresh}
 		a.solve()
 		a.check()
 	}
